@@ -206,6 +206,42 @@ def run(ctx):
                                       'carry the same value/type as the source' % (what, norm(d)[:70])))
         else:
             ctx.ok('R-VERBATIM', '%s:%s' % (qn, nm), w4, '%s passed through unchanged (only the bool->int8 fallback inside except TypeError)' % what)
+    # ---- R-PARAMUSED: every option the converter accepts is read (a requested flavour/mode that is not forwarded silently becomes the default)
+    ctx.rule('R-PARAMUSED', 'every parameter of the converter functions is read in the body (options are forwarded, not dropped)')
+    npu = 0
+    for q5, f5 in sorted(mod.functions.items()):
+        if '<locals>' in q5 or q5.split('.')[-1].startswith('test') or 'Test' in q5:
+            continue
+        ps = [a.arg for a in f5.args.args if a.arg not in ('self', 'cls')] + [a.arg for a in f5.args.kwonlyargs]
+        if not ps:
+            continue
+        loads = set(n.id for n in ast.walk(f5) if isinstance(n, ast.Name) and isinstance(n.ctx, ast.Load))
+        dead = [p_ for p_ in ps if p_ not in loads]
+        npu += len(ps)
+        if dead:
+            ctx.violation(Finding('R-PARAMUSED', RP, q5, f5.body[-1] if len(f5.body) < 2 or not isinstance(f5.body[0], ast.Expr) else f5.body[1],
+                                  'parameter %s of %s is accepted but never read: what the caller asked for (e.g. the netCDF flavour) is silently replaced by the default' % (dead, q5)), oid=q5)
+        else:
+            ctx.ok('R-PARAMUSED', q5, 'src/PseudoNetCDF/%s %s' % (RP, q5), '%d parameters read' % len(ps))
+    ctx.floor('parameters of the converter functions', npu, 25)
+    # ---- R-SCALARMASK: a dimensionless variable is written as the (possibly masked) array, not as an extracted Python scalar
+    ctx.rule('R-SCALARMASK', 'the 0-d branch of addVariableData stores the variable/array itself; scalar extraction (.item(), .getValue(), float()) loses the mask')
+    avd = mod.func('Pseudo2NetCDF.addVariableData')
+    sb = [st for st in iter_stmts(avd.body) if isinstance(st, ast.If) and 'ndim == 0' in norm(st.test)]
+    if not sb:
+        ctx.undec('R-SCALARMASK', '0-d branch', 'src/PseudoNetCDF/%s Pseudo2NetCDF.addVariableData' % RP, '0-d branch not found')
+    else:
+        from .c06 import drops_mask as _dm
+        for st in iter_stmts(sb[0].body):
+            if isinstance(st, ast.Assign) and isinstance(st.targets[0], ast.Subscript) and norm(st.targets[0].value) == 'nvar':
+                ext = [c for c in ast.walk(st.value) if isinstance(c, ast.Call) and ((isinstance(c.func, ast.Attribute) and c.func.attr in ('item', 'getValue', 'tolist')) or
+                                                                                      dotted(c.func) in ('float', 'int', 'np.asscalar'))]
+                d_ = _dm(st.value)
+                if ext or d_ is not None:
+                    ctx.violation(Finding('R-SCALARMASK', RP, 'Pseudo2NetCDF.addVariableData', st, 'the dimensionless variable is written as %s: for a masked scalar that is the hidden data value, '
+                                          'so it comes back unmasked' % norm(ext[0] if ext else d_)[:40]))
+                else:
+                    ctx.ok('R-SCALARMASK', norm(st)[:40], 'src/PseudoNetCDF/%s Pseudo2NetCDF.addVariableData' % RP, 'array stored as is')
     # ---- the converter never writes its source (shared with C05 R-QMUT)
     from .c05 import _qmut_scan
     nq = 0
